@@ -597,15 +597,15 @@ fn tdiff(want: &Option<RT>, got: &RT) -> String {
             if *b == 2 { "unregistered-type".into() } else { "other-registered-type".into() }
         }
         (RT::Opt(a), RT::Opt(b)) | (RT::List(a), RT::List(b)) if a != b => {
-            format!("{}>{}", ctor(w), tdiff(&Some((**a).clone()), b))
+            format!("{}/{}", ctor(w), tdiff(&Some((**a).clone()), b))
         }
         (RT::Res(a1, a2), RT::Res(b1, b2)) | (RT::Ver(a1, a2), RT::Ver(b1, b2)) if w != got => {
             if a1 == b2 && a2 == b1 {
                 format!("swapped-args:{}", ctor(w))
             } else if a1 != b1 {
-                format!("{}.0>{}", ctor(w), tdiff(&Some((**a1).clone()), b1))
+                format!("{}.0/{}", ctor(w), tdiff(&Some((**a1).clone()), b1))
             } else {
-                format!("{}.1>{}", ctor(w), tdiff(&Some((**a2).clone()), b2))
+                format!("{}.1/{}", ctor(w), tdiff(&Some((**a2).clone()), b2))
             }
         }
         _ if w == got => "same".into(),
@@ -629,6 +629,17 @@ fn mismatch_class(d: &Decl, e: &Entry) -> Option<String> {
         return Some(format!("ret:{}", tdiff(&w, &e.ret)));
     }
     None
+}
+
+/// the mismatch class without its position: `arg3:Option/leaf:width` ↦ `arg:leaf:width`
+fn key_class(c: &str) -> String {
+    if c.starts_with("arity") {
+        return "arity".into();
+    }
+    let (pos, rest) = c.split_once(':').unwrap_or((c, ""));
+    let pos = pos.trim_end_matches(|ch: char| ch.is_ascii_digit());
+    let last = rest.rsplit('/').next().unwrap_or(rest);
+    if rest.is_empty() { pos.to_string() } else { format!("{pos}:{last}") }
 }
 
 // ------------------------------------------------------------ one script
@@ -880,19 +891,23 @@ fn run_script(fam: &[Entry], rt: &Runtime<NoCtx>, drv: &mut Driver, rep: &mut Re
         if real == Outcome::Ok && !expected_ok {
             rep.violation(
                 "get_function returned a callable handle under a Rust type that is not the image of the script signature",
-                &format!("accepts-wrong-signature:{}", class.clone().unwrap_or_default()),
+                &format!("accepts-wrong-signature:{}", key_class(&class.clone().unwrap_or_default())),
                 input(),
             );
         } else if real != Outcome::Ok && expected_ok {
             rep.violation(
                 "get_function refused the true Rust signature of a script function",
-                &format!("refuses-true-signature:{}:{}", pr.label, real_s.split(' ').next().unwrap_or("")),
+                &format!(
+                    "refuses-true-signature:{}:{}",
+                    match &script.decls[pr.decl.unwrap()].kind { Kind::Fn => "fn", Kind::Filtermap(..) => "filtermap", Kind::Test => "test" },
+                    real_s.split(' ').next().unwrap_or("")
+                ),
                 input(),
             );
         } else if real == Outcome::Panic {
             rep.violation(
                 "get_function panicked instead of returning an error",
-                &format!("panics:{}", class.clone().unwrap_or_default()),
+                &format!("panics:{}", key_class(&class.clone().unwrap_or_default())),
                 input(),
             );
         }
@@ -911,9 +926,9 @@ fn run_script(fam: &[Entry], rt: &Runtime<NoCtx>, drv: &mut Driver, rep: &mut Re
         if let Some(c) = &class {
             // drop positions so the histogram stays small
             let c2: String = c.split(':').skip(1).collect::<Vec<_>>().join(":");
-            let c3 = c2.rsplit('>').next().unwrap_or("").to_string();
+            let c3 = c2.rsplit('/').next().unwrap_or("").to_string();
             rep.hist("mismatch-class", if c.starts_with("arity") { "arity".to_string() } else if c3.is_empty() { c.clone() } else { c3 });
-            rep.hist("mismatch-depth", c2.matches('>').count().to_string());
+            rep.hist("mismatch-depth", c2.matches('/').count().to_string());
         } else if exists {
             rep.hist("mismatch-class", "none (true signature)");
         }
